@@ -166,7 +166,7 @@ def Target.hidden : Target → Bool
   | _ => false
 
 /-- the part of `has_perm` after the cache miss -/
-def decide (env : Env) (user : User) (perm : String) (x : Target) (ar : List Rule) : Bool :=
+def evalRules (env : Env) (user : User) (perm : String) (x : Target) (ar : List Rule) : Bool :=
   let ug := getUserGroups env user
   match x with
   | .entity e => entityLoop ug e ar
@@ -184,7 +184,7 @@ def hasPermC (env : Env) (c : Cache) (user : User) (perm : String) (x : Target) 
     else match c.get (user, perm, .x x) with                            -- `result = perm_cache.get(x)`
       | some r => (r, c)
       | none =>
-        let result := decide env user perm x ar
+        let result := evalRules env user perm x ar
         (result, c.set (user, perm, .perm perm) result)                 -- `perm_cache[perm] = result`
 
 /-- `has_perm` in a fresh session -/
